@@ -389,36 +389,6 @@ CONFIG['C14'] = {'assumptions': ['tokens and API key values sent in headers are 
                   'context.Context plumbing of the Ctx variants is observed (callback context reaches the request, scheme name visible inside the '
                   'callback) and folded into the marker fields; the model treats plain and Ctx variants alike']}
 
-CONFIG['C17'] = {'assumptions': ['ContentLength and the Content-Length header agree as on requests produced by net/http (the HasBody answer is judged only then; the '
-                 "generator's 4% inconsistent pairs still have their streams judged)",
-                 "scripted streams whose runs of zero-length reads reach bufio's maxConsecutiveEmptyReads (100) are outside the claim: bufio reports "
-                 'io.ErrNoProgress by design (such cases are generated, compared with the model, tagged ~longzerorun)',
-                 "a zero-length Read after Close may return (0, nil): 'reads after close fail' is judged for non-empty read buffers; no read after "
-                 'close ever returns data'],
- 'go_entry': 'runtime.HasBody(req), req.Body.Read, req.Body.Close on a *http.Request whose Body is a scripted io.ReadCloser',
- 'model_fn': 'hasBody / tower (peekingReader over Stream.bread = bufio.Reader.Read, Stream.peek, Stream.fillLoop) / runOps',
- 'partial': [],
- 'quick_n': 12000,
- 'rule': 'scripted streams (bodies of 0..12.4k bytes with position-dependent content; per-call schedule of chunk sizes incl. zero-length reads, runs '
-         'of 20-99 zero reads, sizes around the 4096-byte bufio buffer; terminal EOF or error, delivered with the last bytes or separately; Close '
-         'error) x body kind (scripted / nil / http.NoBody) x ContentLength/Content-Length (absent, -1, 0, positive; 4% inconsistent pairs) x '
-         'histories of HasBody, Read(k), Close, Drain(k) (1-40 ops; k in {0,1,2,3,7,16,100,4095,4096,4097,10000}); thorough adds every history of <= '
-         '5 ops over {h,r0,r1,r5000,c,d3} on 8 stream behaviours and every chunking of bodies of <= 7 bytes with and without interleaved zero reads. '
-         "A case is non-trivial when it has at least one op, parses, and its schedule stays below bufio's 100-empty-reads limit; distinct = distinct "
-         'input lines.',
- 'search_s': 45,
- 'thorough_n': 60000,
- 'thorough_seeds': 3,
- 'trusted_base': ['reading of the property text into the Lean `Spec` (human step, RtVerif/Model/<id>.lean)',
-                  'correspondence check (differential: Go harness /verif/harness -> protocol lines -> compiled Lean driver rtdriver evaluating Model '
-                  'and Spec); coverage bounded by the generators',
-                  "factgen (go/ast extraction of constants/tables into RtVerif/Gen/Facts.lean) and the driver's line parser",
-                  'hand model of bufio.Reader (Peek, Read, fill, readErr, Buffered; RtVerif/Base/Stream.lean, transcribed from '
-                  '$GOROOT/src/bufio/bufio.go) - its two constants are regenerated facts, its behaviour is checked differentially through every case',
-                  'the scripted io.ReadCloser of the harness (props/c17.go c17Src) is what Stream.Src models: sticky terminal, Read after Close '
-                  'fails',
-                  'Go interface semantics: a typed-nil *peekingReader stored in r.Body is modelled as an empty stream that ignores Close']}
-
 CONFIG['C16'] = {'assumptions': ['reader and writer objects passed in (*csv.Reader, *csv.Writer) carry csv.NewReader / csv.NewWriter defaults before the options are '
                  "applied; a caller's CSVReader object is configured by the harness with the same reader options; a caller's CSVWriter consumes the "
                  'record during Write (as csv.Writer does)',
@@ -1012,8 +982,48 @@ CONFIG['C01'] = {'assumptions': ['every operation of the description has a handl
                   '(hand-transcribed scanner `convert`)',
                   "denco's double array (see C05); path.Clean/Join via RtVerif/Base/GoPath.lean (validated by C20's stream G)"]}
 
+CONFIG['C17'] = {'assumptions': ['ContentLength and the Content-Length header agree as on requests produced by net/http (the HasBody answer is judged only then; the '
+                 "generator's 4% inconsistent pairs still have their streams judged)",
+                 "scripted streams whose runs of zero-length reads reach bufio's maxConsecutiveEmptyReads (100) are outside the claim: bufio reports "
+                 'io.ErrNoProgress by design (such cases are generated, compared with the model, tagged ~longzerorun)',
+                 "a zero-length Read after Close may return (0, nil): 'reads after close fail' is judged for non-empty read buffers; no read after "
+                 'close ever returns data',
+                 "'closing the body' / 'reads after close' speak of the body as it is after asking: once HasBody was asked on a request without "
+                 "declared length and with a body, every Close must go through the library's body (none observed as a direct Close of the caller's "
+                 'stream), together they close the underlying stream once, and no Read reaches the underlying stream after such a Close (<late> '
+                 "counter of the scripted stream); a Close the caller makes on its own stream BEFORE any probe is the caller's own, and reads "
+                 'reaching a stream the caller closed before asking are not held against the library'],
+ 'go_entry': 'runtime.HasBody(req), req.Body.Read, req.Body.Close on a *http.Request whose Body is a scripted io.ReadCloser',
+ 'model_fn': 'hasBody / tower (peekingReader over Stream.bread = bufio.Reader.Read, Stream.peek, Stream.fillLoop) / runOps',
+ 'partial': [],
+ 'quick_n': 12000,
+ 'rule': 'scripted streams (bodies of 0..12.4k bytes with position-dependent content; per-call schedule of chunk sizes incl. zero-length reads, runs '
+         'of 20-99 zero reads, sizes around the 4096-byte bufio buffer; terminal EOF or error, delivered with the last bytes or separately; Close '
+         'error) x body kind (scripted / nil / http.NoBody) x ContentLength/Content-Length (absent, -1, 0, positive; 4% inconsistent pairs) x '
+         'histories of HasBody, Read(k), Close, Drain(k) (1-40 ops; k in {0,1,2,3,7,16,100,4095,4096,4097,10000}); one case in five is an '
+         'empty-probing body (no data with EOF/error terminal, http.NoBody, nil, or drained before asking; some with content or a declared length '
+         'for contrast) probed and then c,c / c,r<k> / c,h,c / c,c,r<k> / c,d<k> / c,h,r<k>,c / ... (tag suffix E: a probe that answered false is '
+         'followed by a Close); thorough adds every history of <= 5 ops over {h,r0,r1,r5000,c,d3} on 8 stream behaviours and every chunking of '
+         'bodies of <= 7 bytes with and without interleaved zero reads. A case is non-trivial when it has at least one op, parses, and its schedule '
+         "stays below bufio's 100-empty-reads limit; distinct = distinct input lines.",
+ 'search_s': 45,
+ 'thorough_n': 60000,
+ 'thorough_seeds': 3,
+ 'trusted_base': ['reading of the property text into the Lean `Spec` (human step, RtVerif/Model/<id>.lean)',
+                  'correspondence check (differential: Go harness /verif/harness -> protocol lines -> compiled Lean driver rtdriver evaluating Model '
+                  'and Spec); coverage bounded by the generators',
+                  "factgen (go/ast extraction of constants/tables into RtVerif/Gen/Facts.lean) and the driver's line parser",
+                  'hand model of bufio.Reader (Peek, Read, fill, readErr, Buffered; RtVerif/Base/Stream.lean, transcribed from '
+                  '$GOROOT/src/bufio/bufio.go) - its two constants are regenerated facts, its behaviour is checked differentially through every case',
+                  'the scripted io.ReadCloser of the harness (props/c17.go c17Src) is what Stream.Src models: sticky terminal, Read after Close '
+                  'fails',
+                  'Go interface semantics: a typed-nil *peekingReader stored in r.Body is modelled as an empty stream that ignores Close']}
+
 # properties not claimed (with the reason) and hook commits in /repo (none so far: no hooks needed)
 # built but not yet claimed (with the reason shown in MANIFEST.not_applicable)
+# sub-checks: flows modelled under another property, run (and reported) under this one as well
+CONFIG['C04']['also'] = ['C03']   # typed parameters: what the handler gets for a number/integer text is C03's model (C04-m5)
+CONFIG['C01']['also'] = ['C09']   # the same dispatch under concurrent requests (shared lookup state) is C09's stream R / -race tier (C01-m7)
 PENDING = {"C05DA"}   # C05DA is a sub-check of C05 ("also"), never claimed on its own
 NOT_APPLICABLE = {}
 HOOK_COMMITS = ["dd54fd898b621ffdd89b1e68324b7617730e9ca3"]
